@@ -64,6 +64,12 @@ def deep_snapshot(sc, pps):
         d["static_obstacles_on_lanelet"] = sn.idset(la.static_obstacles_on_lanelet)
         d["dynamic_obstacles_on_lanelet"] = ("s", repr(sorted((k, sorted(v)) for k, v in
                                                             la.dynamic_obstacles_on_lanelet.items())))
+    for tl in sc.lanelet_network.traffic_lights:
+        cyc = tl.traffic_light_cycle
+        if cyc is not None and cyc.cycle_elements:
+            d = s["network"]["traffic_lights"][str(tl.traffic_light_id)]
+            d["cycle_init_timesteps"] = ("s", repr([int(v) for v in cyc.cycle_init_timesteps]))
+            d["answers"] = ("s", ",".join(tl.get_state_at_time_step(t).name for t in range(0, 14)))
     p = sn.snap_pps(pps)
     for k, pp in pps.planning_problem_dict.items():
         lan = pp.goal.lanelets_of_goal_position
@@ -219,6 +225,11 @@ def check(r, ctx):
             warnings.simplefilter("ignore")
             sc, pps = build(r)
             before = deep_snapshot(sc, pps)
+            # taking the snapshot only reads (attributes, occupancies, light states): a second one must be identical
+            diffs = sn.compare(before, deep_snapshot(sc, pps), lambda p: 0)
+            if diffs:
+                raise Violation("mutated-by:observation:%s" % sn.strip_indices(diffs[0][0]),
+                                "reading the observables twice: %s: %r -> %r" % diffs[0])
             exports = {}
             for fmt in r["export"]:
                 try:
